@@ -238,6 +238,17 @@ func coqString(s string) string { return "\"" + strings.ReplaceAll(s, "\"", "\"\
 
 // caseValues returns the evaluated values of all case expressions of the first switch in fd whose
 // tag source text equals tag (or any switch if tag is ""), excluding default.
+func hasSwitchOn(fd *ast.FuncDecl, tag string) bool {
+	found := false
+	ast.Inspect(fd.Body, func(n ast.Node) bool {
+		if sw, ok := n.(*ast.SwitchStmt); ok && sw.Tag != nil && src(sw.Tag) == tag {
+			found = true
+		}
+		return true
+	})
+	return found
+}
+
 func switchOn(p *pkg, fd *ast.FuncDecl, tag string) *ast.SwitchStmt {
 	var found *ast.SwitchStmt
 	ast.Inspect(fd.Body, func(n ast.Node) bool {
@@ -253,6 +264,39 @@ func switchOn(p *pkg, fd *ast.FuncDecl, tag string) *ast.SwitchStmt {
 		fail("switch on %q not found in %s", tag, fd.Name.Name)
 	}
 	return found
+}
+
+// doesUncond: the statement is the call `want`, or a call of a method of the same receiver whose body performs it
+// unconditionally (at the top level of its body, possibly through further such helpers)
+func doesUncond(p *pkg, es *ast.ExprStmt, want string, depth int) bool {
+	if src(es.X) == want {
+		return true
+	}
+	call, ok := es.X.(*ast.CallExpr)
+	if !ok || depth > 3 {
+		return false
+	}
+	se, ok := call.Fun.(*ast.SelectorExpr)
+	if !ok {
+		return false
+	}
+	id, ok := se.X.(*ast.Ident)
+	if !ok || !strings.HasPrefix(want, id.Name+".") {
+		return false
+	}
+	_, fd := p.findMethod("buffer", se.Sel.Name)
+	if fd == nil || fd.Body == nil || len(fd.Recv.List[0].Names) != 1 || fd.Recv.List[0].Names[0].Name != id.Name {
+		return false
+	}
+	for _, st := range fd.Body.List {
+		if _, isRet := st.(*ast.ReturnStmt); isRet {
+			break
+		}
+		if les, ok := st.(*ast.ExprStmt); ok && doesUncond(p, les, want, depth+1) {
+			return true
+		}
+	}
+	return false
 }
 
 func main() {
@@ -447,41 +491,94 @@ func main() {
 	})
 	// suback accepted codes: from the Decode loop condition  code != a && code != b ...
 	section("fact group 5", func() {
-		fd := msg.fn("suback.go", "SubackMessage", "Decode")
-		var codes []int64
-		ast.Inspect(fd.Body, func(n ast.Node) bool {
-			is, ok := n.(*ast.IfStmt)
-			if !ok || !strings.Contains(src(is.Cond), "code !=") {
+		// the return codes a SUBACK may carry: every loop over m.returnCodes in suback.go that rejects codes - by a
+		// conjunction `code != c1 && code != c2 ...` or by a switch on the code whose default clause rejects - names the
+		// same set of accepted codes
+		af, ok := msg.files["suback.go"]
+		if !ok {
+			fail("message/suback.go not found")
+		}
+		var sets [][]int64
+		ast.Inspect(af, func(n ast.Node) bool {
+			rs, ok := n.(*ast.RangeStmt)
+			if !ok || !strings.HasSuffix(src(rs.X), "returnCodes") || rs.Value == nil {
 				return true
 			}
-			var walk func(e ast.Expr)
-			walk = func(e ast.Expr) {
-				be, ok := e.(*ast.BinaryExpr)
-				if !ok {
-					fail("suback Decode: unexpected condition %s", src(e))
+			v := src(rs.Value)
+			var codes []int64
+			ast.Inspect(rs.Body, func(n ast.Node) bool {
+				switch st := n.(type) {
+				case *ast.IfStmt:
+					var walk func(e ast.Expr) bool
+					walk = func(e ast.Expr) bool {
+						if pe, ok := e.(*ast.ParenExpr); ok {
+							return walk(pe.X)
+						}
+						be, ok := e.(*ast.BinaryExpr)
+						if !ok {
+							return false
+						}
+						if be.Op == token.LAND {
+							return walk(be.X) && walk(be.Y)
+						}
+						x, y := be.X, be.Y
+						if src(y) == v {
+							x, y = y, x
+						}
+						if be.Op != token.NEQ || src(x) != v {
+							return false
+						}
+						c, ok := msg.eval(y, 0)
+						if !ok {
+							return false
+						}
+						codes = append(codes, c)
+						return true
+					}
+					saved := codes
+					if !walk(st.Cond) {
+						codes = saved
+					}
+				case *ast.SwitchStmt:
+					if st.Tag == nil || src(st.Tag) != v {
+						return true
+					}
+					hasDefault := false
+					var cs []int64
+					for _, cl := range st.Body.List {
+						cc := cl.(*ast.CaseClause)
+						if cc.List == nil {
+							hasDefault = true
+							continue
+						}
+						for _, e := range cc.List {
+							if c, ok := msg.eval(e, 0); ok && len(cc.Body) == 0 {
+								cs = append(cs, c)
+							}
+						}
+					}
+					if hasDefault {
+						codes = append(codes, cs...)
+					}
 				}
-				if be.Op == token.LAND {
-					walk(be.X)
-					walk(be.Y)
-					return
-				}
-				if be.Op != token.NEQ || src(be.X) != "code" {
-					fail("suback Decode: unexpected condition %s", src(e))
-				}
-				v, ok := msg.eval(be.Y, 0)
-				if !ok {
-					fail("suback Decode: code not constant")
-				}
-				codes = append(codes, v)
+				return true
+			})
+			if len(codes) > 0 {
+				sort.Slice(codes, func(i, j int) bool { return codes[i] < codes[j] })
+				sets = append(sets, codes)
 			}
-			walk(is.Cond)
-			return false
+			return true
 		})
-		if len(codes) == 0 {
-			fail("suback Decode: return code check not found")
+		if len(sets) == 0 {
+			fail("suback.go: no check of the return codes found")
+		}
+		for _, cs := range sets[1:] {
+			if fmt.Sprint(cs) != fmt.Sprint(sets[0]) {
+				fail("suback.go: the checks of the return codes accept different sets: %v, %v", sets[0], cs)
+			}
 		}
 		emit("(* suback.go accepted return codes; connack.go largest code *)")
-		emit("Definition suback_codes : list N := %s.", nlist(codes))
+		emit("Definition suback_codes : list N := %s.", nlist(sets[0]))
 	})
 	section("fact group 6", func() {
 		fd := msg.fn("connack.go", "ConnackMessage", "Decode")
@@ -572,7 +669,25 @@ func main() {
 	}
 	section("Ackqueue.Acked states", func() {
 		emit("(* Ackqueue.Acked: states in which the head entry is released *)")
-		emit("Definition acked_terminal_states : list N := %s.", nlist(caseList(sess.fn("ackqueue.go", "Ackqueue", "Acked"), "aq.ring[aq.head].State", 0)))
+		acked := sess.fn("ackqueue.go", "Ackqueue", "Acked")
+		tag := "aq.ring[aq.head].State"
+		fd, swTag := acked, tag
+		if !hasSwitchOn(acked, tag) {
+			// the test may have been factored out: a function of the package applied to the state, with a switch on its parameter
+			ast.Inspect(acked.Body, func(n ast.Node) bool {
+				ce, ok := n.(*ast.CallExpr)
+				if !ok || len(ce.Args) != 1 || src(ce.Args[0]) != tag {
+					return true
+				}
+				if id, ok := ce.Fun.(*ast.Ident); ok {
+					if _, pfd := sess.findMethod("", id.Name); pfd != nil && len(pfd.Type.Params.List) == 1 && len(pfd.Type.Params.List[0].Names) == 1 {
+						fd, swTag = pfd, pfd.Type.Params.List[0].Names[0].Name
+					}
+				}
+				return true
+			})
+		}
+		emit("Definition acked_terminal_states : list N := %s.", nlist(caseList(fd, swTag, 0)))
 	})
 	section("Ackqueue.Ack types", func() {
 		emit("(* Ackqueue.Ack: acknowledgement types that update an indexed entry; then the ping case *)")
@@ -589,31 +704,36 @@ func main() {
 	}
 	// read deadline expression in receiver: d: keepAlive + (keepAlive / K)
 	section("fact group 8", func() {
-		fd := svc.fn("sendrecv.go", "service", "receiver")
+		// wherever in sendrecv.go the timeoutReader is built: its field d is X + X / K for one duration X
+		af, ok := svc.files["sendrecv.go"]
+		if !ok {
+			fail("service/sendrecv.go not found")
+		}
 		var div int64 = -1
-		ast.Inspect(fd.Body, func(n ast.Node) bool {
+		ast.Inspect(af, func(n ast.Node) bool {
 			kv, ok := n.(*ast.KeyValueExpr)
 			if !ok || src(kv.Key) != "d" {
 				return true
 			}
 			be, ok := kv.Value.(*ast.BinaryExpr)
-			if !ok || be.Op != token.ADD || src(be.X) != "keepAlive" {
-				fail("receiver: deadline expression %s is not keepAlive + (keepAlive / K)", src(kv.Value))
+			if !ok || be.Op != token.ADD {
+				return true
 			}
 			y := be.Y
 			if pe, ok := y.(*ast.ParenExpr); ok {
 				y = pe.X
 			}
 			de, ok := y.(*ast.BinaryExpr)
-			if !ok || de.Op != token.QUO || src(de.X) != "keepAlive" {
-				fail("receiver: deadline expression %s is not keepAlive + (keepAlive / K)", src(kv.Value))
+			if !ok || de.Op != token.QUO || src(de.X) != src(be.X) {
+				return true
 			}
-			v, ok := svc.eval(de.Y, 0)
-			if !ok {
-				fail("receiver: deadline divisor not constant")
+			if v, ok := svc.eval(de.Y, 0); ok {
+				if div >= 0 && div != v {
+					fail("sendrecv.go: two different read deadline expressions")
+				}
+				div = v
 			}
-			div = v
-			return false
+			return true
 		})
 		if div < 0 {
 			fail("receiver: read deadline expression not found")
@@ -721,7 +841,7 @@ func main() {
 					if _, isRet := later.(*ast.ReturnStmt); isRet {
 						break
 					}
-					if les, ok := later.(*ast.ExprStmt); ok && src(les.X) == want {
+					if les, ok := later.(*ast.ExprStmt); ok && doesUncond(svc, les, want, 0) {
 						found = true
 						break
 					}
@@ -781,6 +901,44 @@ func main() {
 		emit("(* processAcked: states that hand the stored PUBLISH on / that only complete *)")
 		emit("Definition acked_publish_states : list N := %s.", nlist(pubs))
 		emit("Definition acked_complete_states : list N := %s.", nlist(completes))
+	})
+	// newBuffer: how the constructor initialises the ring (the hypotheses of the theorems about the translated methods)
+	section("fact group 14", func() {
+		af, ok := svc.files["buffer.go"]
+		if !ok {
+			fail("service/buffer.go not found")
+		}
+		inits := map[string]string{}
+		found := false
+		ast.Inspect(af, func(n ast.Node) bool {
+			cl, ok := n.(*ast.CompositeLit)
+			if !ok {
+				return true
+			}
+			if id, ok := cl.Type.(*ast.Ident); !ok || id.Name != "buffer" {
+				return true
+			}
+			found = true
+			for _, el := range cl.Elts {
+				if kv, ok := el.(*ast.KeyValueExpr); ok {
+					inits[src(kv.Key)] = strings.Join(strings.Fields(src(kv.Value)), "")
+				}
+			}
+			return true
+		})
+		if !found {
+			fail("no composite literal of type buffer in service/buffer.go")
+		}
+		text := ""
+		for _, d := range af.Decls {
+			if fd, ok := d.(*ast.FuncDecl); ok && fd.Name.Name != "powerOfTwo64" && fd.Name.Name != "roundUpPowerOfTwo64" {
+				text += src(fd)
+			}
+		}
+		emit("(* newBuffer: the ring is created with mask = size - 1 and size bytes, after rounding the size up to a power of two *)")
+		emit("Definition ring_ctor_mask_is_size_minus_1 : bool := %v.", inits["mask"] == "size-1" && inits["size"] == "size")
+		emit("Definition ring_ctor_buf_has_size_bytes : bool := %v.", inits["buf"] == "make([]byte,size)")
+		emit("Definition ring_ctor_rounds_size_up : bool := %v.", strings.Contains(text, "powerOfTwo64(size)") && strings.Contains(text, "size = roundUpPowerOfTwo64(size)"))
 	})
 	emit("")
 	section("lock regions, field accesses and call table", func() {
